@@ -55,9 +55,12 @@ def expNonneg (x : Rat) (n : Nat) : Rat × Rat :=
   let N := (n + k) / (j + 1) + 2               -- number of Taylor terms
   sqrIter m k (expSeries m yl yu N 0 1 1 0 0)
 
-/-- enclosure of `exp x` for every rational `x` (`exp x = 1 / exp (-x)` for negative `x`) -/
+/-- enclosure of `exp x` for every rational `x` (`exp x = 1 / exp (-x)` for negative `x`).
+    Arguments far below `-n` are answered by the crude enclosure `[0, 2^-(n+64)]` (`exp x ≤ 2^x`)
+    instead of inverting an astronomically large number. -/
 def expEncl (x : Rat) (n : Nat) : Rat × Rat :=
   if 0 ≤ x then expNonneg x n
+  else if x < -((16 * n + 4096 : Nat) : Rat) then (0, 1 / ((2 ^ (n + 64) : Nat) : Rat))
   else
     let e := expNonneg (-x) n
     (1 / e.2, if 0 < e.1 then 1 / e.1 else 1)
